@@ -117,6 +117,9 @@ func constFact(v ssa.Value) (bool, bool) {
 }
 
 // knownNonNil: values that are never nil by construction.
+// KnownNonNil: the value is an error (or pointer) that was constructed right there.
+func KnownNonNil(v ssa.Value) bool { return knownNonNil(v) }
+
 func knownNonNil(v ssa.Value) bool {
 	switch x := v.(type) {
 	case *ssa.Alloc, *ssa.MakeInterface, *ssa.MakeClosure, *ssa.MakeMap, *ssa.MakeSlice, *ssa.FieldAddr, *ssa.IndexAddr:
